@@ -284,7 +284,8 @@ PROPS = {
              "the limb interval the dominating checks leave -- bit_len / leading_zeros bounds, direct limb comparisons and "
              "exact cast round-trip fixed points are understood (R-CASTFIT); (d) wrapping_to/saturating_to project the "
              "wrapped resp. maximum payload, saturating_from maps error kinds to MAX/ZERO (R-VARIANT); (e) TryFrom<u64> "
-             "errs exactly on `value > MASK` under LIMBS <= 1, signed conversions produce ValueNegative exactly on "
+             "builds an error only where the argument's interval lies above 2^BITS - 1 and Ok only where it lies within, in "
+             "every configuration (however the test is written), signed conversions produce ValueNegative exactly on "
              "is_negative (R-GUARD); (f) the slice constructor can report overflow in every configuration incl. BITS = 0 "
              "(R-FLAG/feasible-failure); (g) no conversion entry reaches an undischarged overflow assertion in overflow-"
              "checked builds (R-TOTAL/overflow-checks)", "that wrapped payloads equal v mod 2^BITS", rules_C07,
@@ -329,7 +330,7 @@ PROPS = {
              "sites being the documented preconditions -- equal lengths for addmul_n / addmul_nx1 / submul_nx1, rhs at "
              "least as long as lhs for adc_n / sbb_n (R-TOTAL, reviewed rows); (b) in builds with arithmetic overflow "
              "checks no kernel reaches an undischarged overflow assertion except under the shift helpers' documented "
-             "amount precondition 0 < amount < 64 and one reviewed arithmetic row (R-TOTAL/overflow-checks); (c) a carry / "
+             "amount precondition amount < 64 and one reviewed arithmetic row (R-TOTAL/overflow-checks); (c) a carry / "
              "borrow word returned by carrying_add, borrowing_sub, adc, sbb, DoubleWord::split or u64::overflowing_* is "
              "read on every path before it is overwritten or the kernel returns -- no carry between limbs is dropped "
              "(R-CARRY, flow-sensitive liveness; 12 call sites); (d) in addmul no indicator returned by addmul_nx1 / "
@@ -367,8 +368,9 @@ PROPS = {
              "that the returned value is the one the input denotes; termination", rules_C17,
              ["that the returned value is the one the input denotes", "termination",
               "overflow assertions inside src/algorithms (kernel value contracts)"]),
-    "C18": P("C18", "(a) float->Uint: the value reaches to_bits through no rounding float operation; NotANumber exactly "
-             "on the is_nan edge which dominates every float comparison; ValueNegative exactly under value < 0.0; f32 "
+    "C18": P("C18", "(a) float->Uint: the value reaches to_bits through no rounding float operation; NotANumber is not built "
+             "on the is_nan() == false edge and ValueNegative not on a negated `>= 0.0` edge without a NaN test in front "
+             "(how the classification is written is otherwise not prescribed: NaN fails every comparison); f32 "
              "forwards through the exact widening cast (R-FLOAT); (b) Uint->float has at most one inexact step on the path "
              "to its result (rounding int->float cast, narrowing float cast, float + - /, * by anything but an exponent-"
              "only factor, nested conversion): no double rounding; (c) no undischarged panic site (R-TOTAL)",
